@@ -15,7 +15,7 @@
     closure it emits (fcPartialApplyGo), so the statement is false without it (see [C01_compile_effectful_pap_refuted]). *)
 From Coq Require Import List ZArith String.
 From FoVerif Require Import Core.Common Core.Lib Core.MiniFo Core.MiniGo Core.Compile Core.GoRules Core.SimDefs
-  Core.CompileProof Core.CompileExamples.
+  Core.CompileProof Core.CompileExamples Core.FuelMono Core.CompileMore.
 Import ListNotations.
 
 (** The full statement of the property on the model (NOT provable: refuted below). *)
@@ -35,6 +35,26 @@ Theorem C01_compile_correct_eventually : forall p, pap_args_pure p -> forall n o
   run_src n p = ODone out -> exists m0, forall m, m0 <= m -> run_go m (compile_prog p) = ODone out.
 Proof. exact compile_correct_eventually. Qed.
 Print Assumptions C01_compile_correct_eventually.
+
+(** More fuel never changes a completed run, in either semantics; hence "the output" is well defined … *)
+Theorem C01_run_src_mono : forall m m' p out, m <= m' -> run_src m p = ODone out -> run_src m' p = ODone out.
+Proof. exact run_src_mono. Qed.
+Print Assumptions C01_run_src_mono.
+Theorem C01_run_go_mono : forall m m' g out, m <= m' -> run_go m g = ODone out -> run_go m' g = ODone out.
+Proof. exact run_go_mono. Qed.
+Print Assumptions C01_run_go_mono.
+
+(** … and every completed run of the emitted Go program prints exactly what the source prints. *)
+Theorem C01_go_output_is_source_output : forall p n out,
+  pap_args_pure p -> run_src n p = ODone out ->
+  forall m out', run_go m (compile_prog p) = ODone out' -> out' = out.
+Proof. exact go_output_is_source_output. Qed.
+Print Assumptions C01_go_output_is_source_output.
+
+(** The full statement is false on the model of the pinned code: *)
+Theorem C01_compile_correct_full_refuted : ~ C01_compile_correct_full_statement.
+Proof. exact compile_correct_full_refuted. Qed.
+Print Assumptions C01_compile_correct_full_refuted.
 
 (** A known defect (finding (a)): a well-formed program with an effectful argument in a partial
     application prints differently in the emitted Go ([let g = add (say "arg" 1)]: the source prints
